@@ -220,8 +220,8 @@ def gen_stmt(rng, d, in_loop=False, in_fn=False, in_class=False):
             at = rng.choice(["", "", "#[static] "])
             ps = ([] if at else ["self"]) + rng.sample(["a", "b"], rng.randint(0, 2))
             ms.append("%sfn %s(%s) %s" % (at, rng.choice(["m", "init", "n"]), ", ".join(ps), b(in_fn=True)))
-        return "%sclass %s%s { %s }" % (rng.choice(["", "#[constructor(new)] "]), rng.choice(["C", "D"]),
-                                        rng.choice(["", "", " < C"]), " ".join(ms))
+        return "%sclass %s { %s }" % (rng.choice(["", "#[constructor(new)] ", "#[derive(C)] ", "#[constructor(new), derive(C)] "]),
+                                      rng.choice(["C", "D"]), " ".join(ms))
     if k == 9:
         return "try %s%s%s" % (b(in_loop=in_loop, in_fn=in_fn), rng.choice([" catch e " + b(in_loop=in_loop, in_fn=in_fn), ""]),
                                rng.choice(["", " finally " + b(in_loop=in_loop, in_fn=in_fn)]))
@@ -291,7 +291,7 @@ def limits(rng):
         res.append(("limit:methodparams:%d" % n, "class C { fn m(self, %s) {} }" % ", ".join(ids)))
         res.append(("limit:args:%d" % n, "f(%s);" % nums))
         res.append(("limit:invokeargs:%d" % n, "x.m(%s);" % nums))
-        res.append(("limit:superargs:%d" % n, "class A {} class B < A { fn m(self) { super.m(%s); } }" % nums))
+        res.append(("limit:superargs:%d" % n, "class A {} #[derive(A)] class B { fn m(self) { super.m(%s); } }" % nums))
         res.append(("limit:vec:%d" % n, "var v = [%s];" % nums))
         res.append(("limit:tuple:%d" % n, "var t = (%s);" % nums))
         res.append(("limit:map:%d" % n, "var m = {%s};" % ", ".join("%d: 1" % i for i in range(n))))
@@ -302,14 +302,14 @@ def limits(rng):
         res.append(("limit:upvalues:%d" % n, "fn a() { %s fn b() { %s fn c() { %s } } }" % (
             " ".join("var p%d;" % i for i in range(200)), " ".join("var q%d;" % i for i in range(n - 200)),
             " ".join("p%d;" % i for i in range(200)) + " " + " ".join("q%d;" % i for i in range(n - 200)))))
-    # very long lines
-    res.append(("long:binary", "var x = " + " + ".join(["1"] * 3000) + ";"))
-    res.append(("long:ident", "var " + "a" * 100000 + " = 1;"))
-    res.append(("long:string", 'var s = "' + "é" * 50000 + '";'))
-    res.append(("long:comment", "// " + "€" * 50000 + "\nvar x = 1;"))
-    res.append(("long:statements", "x;" * 4000))
-    res.append(("long:number", "var n = " + "9" * 5000 + "." + "9" * 5000 + ";"))
-    res.append(("long:calls", "f" + "()" * 3000 + ";"))
+    # very long lines (model-sized; the 100 kB versions are in big_inputs)
+    res.append(("long:binary", "var x = " + " + ".join(["1"] * 600) + ";"))
+    res.append(("long:ident", "var " + "a" * 3000 + " = 1;"))
+    res.append(("long:string", 'var s = "' + "é" * 1500 + '";'))
+    res.append(("long:comment", "// " + "€" * 1500 + "\nvar x = 1;"))
+    res.append(("long:statements", "x;" * 700))
+    res.append(("long:number", "var n = " + "9" * 150 + "." + "9" * 150 + ";"))
+    res.append(("long:calls", "f" + "()" * 600 + ";"))
     return res
 
 
@@ -323,6 +323,17 @@ def code_size_inputs():
     res.append(("codesize:loop", "var x = 0; while x { %s }" % body))
     res.append(("codesize:elsejump", "var x = 0; if x {} else { %s }" % body))
     res.append(("codesize:and", "var x = 0; x && (%s 1);" % ("x + " * 30000)))
+    # too big for vm_compute in the time budget: compared on (T),(P),(E) as well
+    res.append(("big:binary", "var x = " + " + ".join(["1"] * 30000) + ";"))
+    res.append(("big:ident", "var " + "a" * 100000 + " = 1;"))
+    res.append(("big:string", 'var s = "' + "é" * 50000 + '";'))
+    res.append(("big:unterminated", 'var s = "' + "😀" * 50000))
+    res.append(("big:comment", "// " + "€" * 50000 + "\nvar x = 1;"))
+    res.append(("big:statements", "x;" * 40000))
+    res.append(("big:number", "var n = " + "9" * 5000 + "." + "9" * 5000 + ";"))
+    res.append(("big:calls", "f" + "()" * 20000 + ";"))
+    res.append(("big:errors", "var = ;\n" * 20000))
+    res.append(("big:lines", "\n" * 200000 + "x"))
     return res
 
 
@@ -609,7 +620,7 @@ def operator_pairs(ctx, st, value_sets):
                 for t in (m[3], m[4][0], m[4][1]):
                     progs.append("print(%s);" % inst(t, vs))
     recs = yvlib.run_harness(rel, ["run gc=never " + hx(p) for p in progs], case_timeout_ms=CASE_MS)
-    obs = lambda r: (r.result[0], r.output, r.messages[:1] if r.result[0] == "err" else r.result[1])
+    obs = lambda r: (r.result[0], r.output, (r.result[1], r.messages[:1]) if r.result[0] != "ok" else "")
     i = 0
     discr = 0
     for k, a, b, e, g in meta:
